@@ -3,7 +3,7 @@ PROP = {'engine': 'stack',
  'test': 'TestC10',
  'level': 'exploration',
  'quick': {'checks': 120, 'shards': 12, 'timeout': 900},
- 'thorough': {'checks': 4000, 'shards': 14, 'timeout': 3400},
+ 'thorough': {'checks': 4000, 'shards': 14, 'timeout': 3400, 'race': True, 'race_frac': 0.2},
  'rule': 'rapid draws the phase in which the first invocation lingers - initialisation (explicit, or started lazily by the first caller itself as in '
          'the real binary, then optionally ordered by the pause point frontend.lazyInit), runtime working, response sent while an INVOKE-subscribed '
          'extension finishes, timeout reset in progress, the reset that follows a Runtime.ExitError dragged out by an extension (`failreset`), the '
@@ -19,3 +19,4 @@ PROP = {'engine': 'stack',
                'interop server; exploration of sampled offsets, not of every interleaving inside Reserve/Release.',
  'level_note': "extra callers are placed by latches and sleeps; orders inside the interop server's mutex-protected sections are not schedulable",
  'technique': 'property-based testing (rapid): generated caller schedules, metamorphic expectation for the first caller'}
+PROP['rule'] += " Thorough tier: a fifth of the cases additionally run on hosts built with the race detector (a reported race ends the host and is judged as a crash of the emulator)."
